@@ -69,6 +69,9 @@ func GetS1(c *core.Ctx) *Set {
 			for _, pr := range g.Problems {
 				c.Fail("G.model", "S1 "+rel+": "+pr, pr, "", "S1")
 			}
+			for _, gw := range model.GlobalWrites(g) {
+				c.Fail("G.model", "S1 "+rel+": "+gw, "package-level state of generated code is written outside its generated initialisation: "+gw, "", "S1")
+			}
 			s.S1 = append(s.S1, g)
 		}
 		n := 0
@@ -166,6 +169,9 @@ func GetS2(c *core.Ctx) *Set {
 			if len(p.Errors) > 0 || p.Types == nil || p.TypesInfo == nil {
 				continue
 			}
+			for _, sh := range core.ShadowedUniverse(p) {
+				c.Fail("LOAD", "shadowed predeclared identifier "+sh+" in regenerated "+p.PkgPath, "generated code declares a name that shadows a predeclared identifier", "", "S2")
+			}
 			sc := s.SchemaOf[p.PkgPath]
 			name := strings.TrimPrefix(p.PkgPath, gen.CorpusModule+"/")
 			src := "S2"
@@ -179,6 +185,9 @@ func GetS2(c *core.Ctx) *Set {
 			}
 			for _, pr := range g.Problems {
 				c.Fail("G.model", "S2 "+name+": "+pr, pr, "", src)
+			}
+			for _, gw := range model.GlobalWrites(g) {
+				c.Fail("G.model", "S2 "+name+": "+gw, "package-level state of generated code is written outside its generated initialisation: "+gw, "", src)
 			}
 			s.S2 = append(s.S2, g)
 		}
